@@ -219,6 +219,16 @@ def run(c, chk):
             if not have and not bad:
                 bad = 'the rule can match %s newlines but the action does not count them' % sorted(counts)
                 badap = lex.actions[r][0]
+            # the count must run over the whole match: the text must not have been cut (a NUL stored at a searched
+            # position) before the counting loop has seen it
+            if not bad:
+                for ap in lex.actions[r]:
+                    cut = truncated_before_count(ap)
+                    if cut is not None:
+                        bad = ('the action stores a NUL into the matched text at %s before it counts the newlines: newlines after that '
+                               'position (e.g. in the default part of ${NAME:-default}) are not added to cfg->line' % sym.render(cut.addr))
+                        badap = ap
+                        break
         if bad:
             chk.fail('R6.4', 'line:%s' % dfa.rule_text.get(r), 'src/lexer.l:%d' % dfa.rule_line.get(r, 0),
                      '%s: %s' % (lex.rule_name(r), bad), witness=['path: ' + badap.describe()])
@@ -369,6 +379,27 @@ def section_handover(c, model_chk, model):
                 chk.fail('R6.5', 'section-filename', c.where(rec[0].ins),
                          'the section context is not given the current file name before its body is parsed: a section created at initialisation reports errors without a file name')
                 return
+            # every entry into a section body (also a second one, from another file) hands over the CURRENT name
+            stale = None
+            for tr2 in model.transitions(s, LB):
+                if tr2.kind != 'next' or not tr2.calls('cfg_parse_internal'):
+                    continue
+                r2 = tr2.events.index(tr2.calls('cfg_parse_internal')[0])
+                has_name = any(cn[0] == 'icmp' and cn[3] == sym.C0 and sym.norm(cn[2]) == ('ld', ('fld', ('p', 'cfg'), 'cfg_t', 'filename')) and ((cn[1] == 'ne') == t)
+                               for cn, t, _ in tr2.assume)
+                if not has_name:
+                    continue
+                dups = [e for e in tr2.events[:r2] if e.kind == 'call' and e.name == 'strdup' and sym.norm(e.args[0]) == ('ld', ('fld', ('p', 'cfg'), 'cfg_t', 'filename'))]
+                failed = any(fp.is_null_assumption(cn, t) and fp.is_null_assumption(cn, t)[1] and any(fp.is_null_assumption(cn, t)[0] == d.res for d in dups)
+                             for cn, t, _ in tr2.assume)
+                stored = any(e.kind == 'store' and e.field == 'filename' and any(e.val == d.res for d in dups) for e in tr2.events[:r2])
+                if not stored and not failed:
+                    stale = tr2
+            if stale is not None:
+                chk.fail('R6.5', 'section-filename-stale', c.where(rec[0].ins),
+                         'a section body can be entered without the section taking the name of the file being read now (%s): a section opened again from '
+                         'another file reports its errors under the first file\'s name' % ' && '.join(stale.cond()[-3:]))
+                return
             if not down:
                 chk.fail('R6.5', 'section-line-down', c.where(rec[0].ins), 'the section context does not inherit the current line before its body is parsed')
             elif not up:
@@ -378,3 +409,34 @@ def section_handover(c, model_chk, model):
             return
     if not found:
         raise report.Broken('no recursive section parse found in the extracted table')
+
+
+def truncated_before_count(ap):
+    """the store event that cuts the matched text short before the newline-counting loop starts, or None"""
+    evs = ap.path.events
+    first = next((i for i, e in enumerate(evs) if e.kind == 'store' and e.field == 'line' and e.in_loop), None)
+    if first is None:
+        return None
+    ytext = sym.norm(('ld', lexmodel.YYTEXT))
+
+    def in_text(v, depth=0):
+        if depth > 6:
+            return False
+        if sym.mentions(sym.norm(v), lambda x: x == ytext):
+            return True
+        r = sym.root_of(v)
+        if r[0] == 'call' and r[1] in ('strchr', 'strrchr', 'strstr', 'memchr', 'strpbrk'):
+            ev = next((e for e in evs if e.kind == 'call' and e.res == r), None)
+            return ev is not None and in_text(ev.args[0], depth + 1)
+        if v[0] in ('idx', 'fld') and v[1][0] == 'p':
+            return False
+        return False
+    for e in evs[:first]:
+        if e.kind == 'store' and e.val == sym.C0 and e.addr[0] in ('idx', 'call') and in_text(e.addr):
+            # the closing delimiter (last byte, index strlen-1) may go: it is not a newline
+            if e.addr[0] == 'idx' and sym.mentions(e.addr[2], lambda x: x[0] == 'call' and x[1] == 'strlen') and sym.root_of(e.addr[1]) == ('g', lexmodel.YYTEXT[1]) :
+                continue
+            if e.addr[0] == 'idx' and sym.mentions(e.addr[2], lambda x: x[0] == 'call' and x[1] == 'strlen'):
+                continue
+            return e
+    return None
